@@ -23,7 +23,7 @@ from vlib import f2b, fs2b, b2f, b2fs, ints
 from props import c01
 
 ID = "C07"
-GEN = ["Leaves", "Misc", "Params", "Planar"]
+GEN = ["Leaves", "Misc", "Params", "Planar", "TriangularGen", "PermGen"]
 RULE = ("constructor round trips Affine/Scale over magnitudes 1e-6..1e6; every leaf kind's transform/inverse on boundary-directed inputs with "
         "non-default parameters; Permute with permutations of rank 1-3 (all permutations of size<=4 in quick, random up to 12), invalid "
         "permutation arrays; Flip on ranks 1-3; AdditiveCondition with random f; non-trivial = non-default parameters or non-identity permutation; "
@@ -149,6 +149,8 @@ def corr(c, tier, rng):
             continue
         c01.compare(c, "generated-kernels-vs-impl", line, got, want, info)
     # --- Planar (generated, both activations, conditional through get_planar) and TriangularAffine (hand model)
+    from props import permgen
+    permgen.corr_generated(c, tier, rng)  # the GENERATED Permute (Gen/PermGen.lean)
     from props import planar_tri
     planar_tri.corr_planar(c, tier, rng, methods=("t", "i"))
     planar_tri.corr_triangular(c, tier, rng, methods=("t", "i"))
